@@ -302,6 +302,8 @@ def tables(ck, shapes):
                 break
     # decompose2d / decompose3d enumerate K(full box) exactly once
     dshapes = [(2, 2), (2, 3), (3, 2), (4, 3), (2, 2, 2), (2, 3, 2), (3, 2, 4), (3, 3, 3)]
+    # degenerate arrays: an axis of length 1 in every position (thin slabs, lines, single voxels)
+    dshapes += [(1, 1), (1, 2), (2, 1), (1, 5), (5, 1), (1, 1, 1), (1, 1, 4), (1, 4, 1), (4, 1, 1), (1, 2, 3), (2, 1, 3), (2, 3, 1), (1, 3, 3), (3, 1, 3), (3, 3, 1)]
     if ck.thorough():
         dshapes += [(5, 4), (4, 5, 3), (2, 5, 5)]
     for sh in dshapes:
@@ -322,6 +324,21 @@ def tables(ck, shapes):
                         "triangulation of the full box has %d; missing %s extra %s" % (
                             len(sh), sh, dim, len(got), dup, len(want), sorted(set(want) - set(got))[:3],
                             sorted(set(got) - set(want))[:3]), {"shape": sh, "dim": dim})
+    for sh in dshapes:
+        fn = U.test_EC3 if len(sh) == 3 else U.test_EC2
+        want_counts = face_counts(np.ones(sh, np.uint8))
+        ck.count(("testEC", sh), bucket="decompose")
+        try:
+            r = [int(v) for v in fn(sh)]
+        except Exception as e:  # noqa
+            ck.fail("tables/test_EC-raises", "utils.test_EC%d(%s) raised %s" % (len(sh), sh, e), {"shape": sh})
+            continue
+        # test_EC3 -> (ts, fs, es, vs, ec); test_EC2 -> (fs, es, vs, ec)
+        got_counts = list(reversed(r[:-1])) + [0] * (4 - len(r[:-1]))
+        if got_counts != want_counts or r[-1] != chi_of(want_counts):
+            feat = "thin" if min(sh) == 1 else "full"
+            ck.fail("tables/test_EC-vs-K/%s" % feat, "utils.test_EC%d(%s) = %s: the triangulated solid box has %s vertices/edges/triangles/tetrahedra, "
+                    "Euler characteristic %d" % (len(sh), sh, r, want_counts, chi_of(want_counts)), {"shape": sh, "returned": r, "face_counts": want_counts})
     ck.section("tables", shapes_flattened=len(meta), decompose_shapes=len(dshapes))
 
 
@@ -332,7 +349,8 @@ def ec_cases(ck):
     if ck.thorough():
         ex = [(1,), (2,), (3,), (8,), (1, 1), (1, 3), (3, 1), (2, 2), (3, 3), (2, 4), (1, 1, 1), (2, 2, 2), (1, 2, 3), (2, 2, 3), (3, 2, 2), (2, 1, 2)]
     else:
-        ex = [(1,), (2,), (6,), (1, 1), (1, 3), (2, 2), (2, 3), (3, 2), (1, 1, 1), (2, 2, 2), (2, 1, 2), (1, 2, 2)]
+        ex = [(1,), (2,), (6,), (1, 1), (1, 3), (3, 1), (1, 5), (2, 2), (2, 3), (3, 2), (1, 1, 1), (1, 1, 3), (1, 3, 1), (3, 1, 1), (2, 2, 2),
+              (2, 1, 2), (1, 2, 2), (2, 2, 1)]
     for sh in ex:
         for m in all_masks(sh):
             cases.append((m, "exhaustive:%s" % "x".join(map(str, sh))))
@@ -501,10 +519,12 @@ def lips(ck, intvol):
     for t in range(nm):
         d = int(rng.integers(1, 4))
         sh = tuple(int(x) for x in rng.integers(2, 6, size=d))
+        if t % 4 == 3 and d > 1:                                # thin arrays: an axis of length 1 in a random position
+            sh = tuple(1 if i == t % d else v for i, v in enumerate(sh))
         mask = (rng.random(sh) < rng.choice([0.5, 0.7, 0.9])).astype(np.uint8)
         if t % 5 == 0:
             mask[(0,) * d] = 1
-            mask[(1,) * d] = 1
+            mask[tuple(min(1, v - 1) for v in sh)] = 1
         N = 3
         A = rng.uniform(-2, 2, size=(N, d)) + 2 * np.eye(N, d)
         tr = rng.uniform(-3, 3, size=N)
